@@ -10,7 +10,7 @@ from proto import IMPL, MODEL, kv, run_batch
 MODEL_FIELDS = {
     "recv": ["ack", "src", "bal", "sup", "req", "ev", "mv", "st"],
     "recvh": ["ack", "src", "bal", "sup", "hreq", "calls", "ev", "st"],
-    "msg": ["res", "ev", "st"],
+    "msg": ["res", "ev", "st", "ecs"],
     "msgdry": ["res", "st"],
     "msgh": ["res", "hreq", "st"],
     "acth": ["res", "dst", "bal"],
